@@ -61,7 +61,7 @@ def _sizes(tier):
 
 
 def _wkinds(K):
-    ks = ["qint8", "qint8_pt", "qfloat8_e4m3fn", "qfloat8_e5m2", "qint4", "qint2"]
+    ks = ["qint8", "qint8_pt", "qint8_axm1", "qfloat8_e4m3fn", "qfloat8_e5m2", "qint4", "qint2"]
     for g in (32, 64, 128):
         if K % g == 0 and K > g:
             ks.append(f"qint4_g{g}")
@@ -148,6 +148,14 @@ def _weight(wkind, N, K, dt, family, phase):
     """Returns (quantized weight, float64 dequantized (N,K))."""
     from optimum.quanto import QBitsTensor, QBytesTensor, quantize_weight
 
+    if wkind == "qint8_axm1":
+        # 8-bit weight quantized along its last axis (one scale per input feature), e.g. a transposed weight
+        q0, w0 = _weight("qint8_pt", N, K, dt, family if family not in ("generic", "large") else "exact", phase)
+        if K == 1:
+            return q0, w0
+        sc = (2.0 ** ((torch.arange(K) % 4) - 2).to(torch.float64)).to(dt).reshape(1, K)
+        q = QBytesTensor(q0.qtype, -1, q0._data.size(), q0._data.stride(), q0._data, sc)
+        return q, num.decode_codes(q0._data, "qint8") * sc.to(torch.float64)
     base = wkind.split("_g")[0].replace("_pt", "")
     gs = int(wkind.split("_g")[1]) if "_g" in wkind else None
     pt = wkind.endswith("_pt")
@@ -417,6 +425,18 @@ def _direct_task(task, out):
                                     out["violations"].append(violation(PID, case, dict(fields, sub=sub), f"{sub}: {msg}"))
 
 
+def _peraxis(q, axis):
+    """Per-axis variant of a per-tensor 2-D quantized tensor: same codes, a different power-of-two scale per index of `axis`."""
+    from optimum.quanto import QBytesTensor
+
+    n = q.shape[axis]
+    if n == 1:
+        return q, None
+    sc = (2.0 ** ((torch.arange(n) % 4) - 2).to(torch.float64)).to(q.dtype).reshape((n, 1) if axis == 0 else (1, n))
+    out = QBytesTensor(q.qtype, axis, q._data.size(), q._data.stride(), q._data, sc)
+    return out, num.decode_codes(q._data, q.qtype.name) * sc.to(torch.float64)
+
+
 def _matmul_task(task, out):
     """torch.mm / matmul / bmm with two quantized operands (aten.mm integer branch needs n>16 and multiples of 8)."""
     from optimum.quanto import QBytesTensor
@@ -430,20 +450,36 @@ def _matmul_task(task, out):
     ps = [1, 8, 9] if tier == "quick" else [1, 3, 8, 9, 16]
     for n, m, p in itertools.product(ns, ms, ps):
         for family in ("exact", "onehot", "generic"):
-            for akind in ("qint8", "qfloat8_e4m3fn", "float"):
-                for bkind in ("qint8", "qfloat8_e4m3fn", "float"):
+            for akind in ("qint8", "qfloat8_e4m3fn", "float", "qint8@0", "qint8@-1"):
+                for bkind in ("qint8", "qfloat8_e4m3fn", "float", "qint8@0", "qint8@-1"):
                     if akind == "float" and bkind == "float":
                         continue
-                    a, a64, _, _ = _act(akind, (n, m), dt, family, 0)
-                    bT, bT64, _, _ = _act(bkind, (p, m), dt, family, 1)
+                    if "@" in akind + bkind and family == "generic":
+                        continue
+                    a, a64, _, _ = _act(akind.split("@")[0], (n, m), dt, family, 0)
+                    bT, bT64, _, _ = _act(bkind.split("@")[0], (p, m), dt, family, 1)
+                    if "@" in akind:
+                        a, a64n = _peraxis(a, int(akind.split("@")[1]))
+                        if a64n is None:
+                            continue
+                        a64 = a64n
+                    if "@" in bkind:
+                        # bT is the (p,m) transpose of the right operand: axis 0 of the operand is axis -1 of bT
+                        bT, b64n = _peraxis(bT, -1 if bkind.endswith("@0") else 0)
+                        if b64n is None:
+                            continue
+                        bT64 = b64n
                     # right operand (m,p): transpose of a (p,m) per-tensor tensor, plus a contiguous variant
                     for blay in ("t", "contig"):
                         if isinstance(bT, QBytesTensor):
                             d = bT._data.t() if blay == "t" else bT._data.t().contiguous()
-                            bq = QBytesTensor(bT.qtype, None, d.size(), d.stride(), d, bT._scale)
+                            bax = None if bT.axis is None else (0 if bT.axis == -1 else -1)
+                            bq = QBytesTensor(bT.qtype, bax, d.size(), d.stride(), d, bT._scale if bT.axis is None else bT._scale.t())
                         else:
                             bq = bT.t() if blay == "t" else bT.t().contiguous()
                         for fn_name in ("mm", "matmul", "bmm"):
+                            if fn_name == "bmm" and "@" in akind + bkind:
+                                continue
                             c = [n, m, p, family, akind, bkind, blay, fn_name]
                             if only and only != c:
                                 continue
